@@ -25,7 +25,7 @@ fn b(slot: u64, idx: u8) -> Blk {
 }
 
 /// One slot, two competing blocks, every kind of foreign input.
-fn alpha_slot1() -> NodeAlphabet {
+pub fn alpha_slot1() -> NodeAlphabet {
     NodeAlphabet {
         foreign: cat(vec![
             votes(N, 1, 0, &[1, 2]),
@@ -50,7 +50,7 @@ fn alpha_slot1() -> NodeAlphabet {
 }
 
 /// Slots 1-2: parent rule inside a window, blocks before parents, pending blocks.
-fn alpha_slots12() -> NodeAlphabet {
+pub fn alpha_slots12() -> NodeAlphabet {
     NodeAlphabet {
         foreign: cat(vec![
             votes(N, 1, 0, &[1]),
@@ -74,7 +74,7 @@ fn alpha_slots12() -> NodeAlphabet {
 }
 
 /// Window boundary: slots 3,4,5 with ParentReady paths (notar of 3, skip of 3, notar-fallback).
-fn alpha_boundary() -> NodeAlphabet {
+pub fn alpha_boundary() -> NodeAlphabet {
     NodeAlphabet {
         foreign: vec![
             cert(CK::Skip, 1, 0, &[1], &[2]),
@@ -105,7 +105,7 @@ fn alpha_boundary() -> NodeAlphabet {
 }
 
 /// Fallback paths in slot 1 with exact thresholds (one foreign vote = 45%).
-fn alpha_fallbacks() -> NodeAlphabet {
+pub fn alpha_fallbacks() -> NodeAlphabet {
     NodeAlphabet {
         foreign: cat(vec![
             votes(N, 1, 0, &[1, 2]),
@@ -123,7 +123,7 @@ fn alpha_fallbacks() -> NodeAlphabet {
 
 /// The node has notarized a chain through window 0; events around the hand-over into window 1.
 /// Blocks 0..2 are the chain 1 <- 2 <- 3 (delivered as a prefix), then the window-1 blocks.
-fn alpha_handover() -> NodeAlphabet {
+pub fn alpha_handover() -> NodeAlphabet {
     NodeAlphabet {
         foreign: vec![
             cert(CK::Notar, 3, 0, &[1, 2], &[]),
